@@ -127,8 +127,8 @@ scn == ScnOf(sid)
 
 NoOutcome == [status |-> "none", res |-> <<>>, main |-> NoTerm]
 
-Cur == [mode |-> Mode, ins |-> scn.ins, pending |-> pending, resolving |-> resolving, parsed |-> parsed,
-        out |-> out, declared |-> IF Mode = "intended" THEN TLCEval(SeqRange(SetDefNames(scn))) ELSE {},
+Cur == [mode |-> Mode, ins |-> scn.ins, form |-> scn.form, main |-> scn.main,
+        pending |-> pending, resolving |-> resolving, parsed |-> parsed, out |-> out,
         err |-> "", trace |-> TRUE, log |-> <<>>]
 
 ScnLine(s) ==
